@@ -45,7 +45,8 @@ VECK = ("vec", "drain", "intoiter", "dfilter")
 ITERK = ("drain", "intoiter", "dfilter")
 KEEPK = ("dfilter",)    # `&mut self` methods whose receiver fields must survive a panic (the caller's unwinding reads them): the
                         # function returns `Except Unit value × fields`, `.error ()` = it unwound
-CB1, DFSTRUCT, BACKSHIFT = "cb1", "dfstruct", "backshiftguard"     # kinds whose threaded state is the vector model: `Vec` methods, and methods of its iterator structs
+CB1, DFSTRUCT, BACKSHIFT = "cb1", "dfstruct", "backshiftguard"
+BUF, VSVAL = "buffer", "vsval"     # a freshly obtained buffer (its slots); a `RawVec` / `Vec` value under construction     # kinds whose threaded state is the vector model: `Vec` methods, and methods of its iterator structs
 BD, DRAIN, ITER2 = "bound", "drainstruct", "sliceiter"
 SLICE, CB2 = "slice", "cb2"   # a sub-slice of the vector's buffer (first slot, length); a two-argument predicate (call log as data)
 EXTW = "extendwith"      # `impl ExtendWith<T>`: the one implementor, `ExtendElement(value)`, is the value it clones
@@ -84,6 +85,8 @@ def lean_ty(t):
     if t == EXTW: return "V.Elem"
     if t == SLICE: return "(Nat × Nat)"
     if t == CB2: return "(Nat → V.Elem → V.Elem → Option Bool)"
+    if t == BUF: return "(List (Option V.Elem))"
+    if t == VSVAL: return "V.VS"
     if t == CB1: return "(Nat → V.Elem → Option Bool)"
     if t == DFSTRUCT: return "V.DF"
     if t == BD: return "V.Bd"
@@ -106,6 +109,8 @@ def rust_ty(text):
     if t == "NonNull<[u8]>": return ("tuple", [NAT, NAT])
     if t in ("Drain<T>", "Drain<'a,'bump,T>"): return DRAIN
     if t == "IntoIter<'bump,T>": return ("tuple", [SLOT, SLOT])
+    if t in ("Self", "Vec<'bump,T>") : return VSVAL if t != "Self" else BUMP
+    if t in ("&'aBump", "&'bumpBump", "Bump"): return UNIT
     if t == "DrainFilter<'a,'bump,T,F>": return DFSTRUCT
     if t in ("slice::Iter<'a,T>", "slice::Iter<T>"): return ITER2
     if t in ("()", ""): return UNIT
@@ -204,6 +209,9 @@ FUNCS += [
     Fn("cap", "rawvec", "read", file="src/collections/raw_vec.rs", group="RawVec", lean="rv_cap"),
     Fn("alloc_guard", "free", "pure", file="src/collections/raw_vec.rs", group="RawVec"),
     Fn("amortized_new_size", "rawvec", "read", file="src/collections/raw_vec.rs", group="RawVec"),
+    Fn("new_in", "rvctor", "pure", file="src/collections/raw_vec.rs", group="RawVec", lean="rv_new_in", ret=VSVAL),
+    Fn("allocate_in", "rvctor", "pure", file="src/collections/raw_vec.rs", group="RawVec", lean="rv_allocate_in", ret=VSVAL),
+    Fn("with_capacity_in", "rvctor", "pure", file="src/collections/raw_vec.rs", group="RawVec", lean="rv_with_capacity_in", ret=VSVAL),
     Fn("current_layout", "rawvec", "read", file="src/collections/raw_vec.rs", group="RawVec"),
     Fn("dealloc_buffer", "rawvec", "st", file="src/collections/raw_vec.rs", group="RawVec"),
     Fn("shrink_to_fit", "rawvec", "st", file="src/collections/raw_vec.rs", group="RawVec", lean="rv_shrink_to_fit"),
@@ -228,6 +236,8 @@ FUNCS += [
     Fn("reserve_exact", "vec", "st", file=VEC_RS, group="Vec", anchor=VEC_IMPL, lean="vec_reserve_exact"),
     Fn("try_reserve", "vec", "st", file=VEC_RS, group="Vec", anchor=VEC_IMPL, lean="vec_try_reserve"),
     Fn("try_reserve_exact", "vec", "st", file=VEC_RS, group="Vec", anchor=VEC_IMPL, lean="vec_try_reserve_exact"),
+    Fn("new_in", "rvctor", "pure", file=VEC_RS, group="Vec", anchor=VEC_IMPL, lean="vec_new_in", ret=VSVAL),
+    Fn("with_capacity_in", "rvctor", "pure", file=VEC_RS, group="Vec", anchor=VEC_IMPL, lean="vec_with_capacity_in", ret=VSVAL),
     Fn("shrink_to_fit", "vec", "st", file=VEC_RS, group="Vec", anchor=VEC_IMPL, lean="vec_shrink_to_fit"),
     Fn("push", "vec", "st", file=VEC_RS, group="Vec", anchor=VEC_IMPL, lean="vec_push"),
     Fn("pop", "vec", "st", file=VEC_RS, group="Vec", anchor=VEC_IMPL, lean="vec_pop"),
@@ -390,7 +400,9 @@ class Tr:
             self.sv, self.sty, self.bindS, self.pureS = "s", "RsM.VW", "RsM.bindW", "RsM.pureW"
         else:
             self.sv, self.sty, self.bindS, self.pureS = "s", "St", "bindO", "pureO"
-        if fn.kind == "dfilter":
+        if fn.kind == "rvctor":
+            self.lead, self.lead_names = ["(c : V.Cfg)"], ["c"]
+        elif fn.kind == "dfilter":
             self.lead, self.lead_names = ["(c : V.Cfg)", "(pred : Nat → V.Elem → Option Bool)"], ["c", "pred"]
         elif fn.kind in ("rawvec",) + VECK:
             self.lead, self.lead_names = ["(c : V.Cfg)"], ["c"]
@@ -807,7 +819,7 @@ class Tr:
             pa = [self.pure(a, env) for a in args]
             if any(x is None for x in pa): return None
             n = segs[-1]
-            if n in ("size_of<T>", "align_of<T>") and not pa and self.fn.kind in ("rawvec",) + VECK:
+            if n in ("size_of<T>", "align_of<T>") and not pa and self.fn.kind in ("rawvec", "rvctor") + VECK:
                 return ("c.esz" if n.startswith("size") else "c.eal"), NAT
             if n == "size_of<usize>" and not pa:
                 return "8", NAT
@@ -831,6 +843,8 @@ class Tr:
                 return f"({pa[0][0]}, {pa[1][0]})", ("tuple", [NAT, NAT])
             if segs[-1] in ("from_raw_parts_mut", "from_raw_parts") and len(pa) == 2 and pa[0][1] == SLOT and pa[1][1] == NAT:
                 return f"({pa[0][0]}, {pa[1][0]})", SLICE
+            if segs[-1] == "dangling" and not pa and self.fn.kind == "rvctor":
+                return "([] : List (Option V.Elem))", BUF
             if segs == ["ExtendElement"] and len(pa) == 1 and pa[0][1] == ELEM:
                 return pa[0][0], EXTW
             if segs[-2:] == ["SetLenOnDrop", "new"] and len(pa) == 1 and self.fn.kind == "vec" and args[0] == ("ref", ("field", ("path", ["self"]), "len")):
@@ -894,6 +908,24 @@ class Tr:
                 if set(d) != {"tail_start", "tail_len", "iter", "vec"} or d["iter"][1] != ITER2 or d["vec"][1] != VECSELF:
                     return None
                 return f"(V.Drain.mk {d['tail_start'][0]} {d['tail_len'][0]} {paren(d['iter'][0])}.1 {paren(d['iter'][0])}.2)", DRAIN
+            if segs[-1] == "RawVec" and self.fn.kind == "rvctor":
+                d = {}
+                for f, fe in fs:
+                    p = self.pure(fe, env)
+                    if p is None: return None
+                    d[f] = p
+                if set(d) != {"ptr", "cap", "a"} or d["ptr"][1] != BUF or d["cap"][1] != NAT:
+                    return None
+                return f"(V.VS.mk {d['ptr'][0]} 0 {d['cap'][0]})", VSVAL
+            if segs[-1] == "Vec" and self.fn.kind == "rvctor":
+                d = {}
+                for f, fe in fs:
+                    p = self.pure(fe, env)
+                    if p is None: return None
+                    d[f] = p
+                if set(d) != {"buf", "len"} or d["buf"][1] != VSVAL or d["len"][1] != NAT:
+                    return None
+                return f"{{ {d['buf'][0]} with len := {d['len'][0]} }}", VSVAL
             if segs[-1] in ("ChunkRawIter", "ChunkIter") and len(fs) == 2:
                 d = {}
                 for f, fe in fs:
@@ -1290,6 +1322,11 @@ class Tr:
             return self.panic()
         if segs[-1] == "unreachable_unchecked":
             return self.bad("unreachable_unchecked reached")
+        if self.fn.kind == "rvctor" and segs == ["Alloc", "alloc"] and len(args) == 2:
+            return self.E(args[1], env, K(lambda t, ty, env_: k(f"(RsV.arena_alloc_buf c {paren(t)}.size)", res(BUF), env_)))
+        if self.fn.kind == "rvctor" and len(segs) == 2 and segs[0] == "RawVec" and ("rv_" + segs[1]) in FN_LEAN:
+            g = FN_LEAN["rv_" + segs[1]]
+            return self.args(args, env, lambda pa, env_: self.call_fn(g, None, [x for x in pa if x[1] != UNIT or x[0] != "()"] if False else pa, env_, k))
         if self.fn.kind == "rawvec" and segs == ["Alloc", "alloc"] and len(args) == 2:
             return self.E(args[1], env, K(lambda t, ty, env_: self.bind_call(f"RsV.arena_realloc c {paren(t)}.size", "st", k, env_, res(UNIT))))
         if self.fn.kind == "rawvec" and segs[-2:] == ["ptr", "write"] and len(args) == 2 and args[0] == ("path", ["self"]) \
@@ -1374,7 +1411,9 @@ class Tr:
             raise Untranslatable(f"{g.name} is called but could not be translated itself")
         rty = g.ret if g.ret is not None else rust_ty(g.sig["ret"])
         lead = []
-        if g.kind == "dfilter":
+        if g.kind == "rvctor":
+            lead = ["c"]
+        elif g.kind == "dfilter":
             lead = ["c", "pred"]
         elif g.kind in ("rawvec",) + VECK:
             lead = ["c"]
@@ -1786,6 +1825,10 @@ class Tr:
             if self.fn.kind in KEEPK:
                 return self.FOR_EACH_DROP_K(env, k)
             return self.FOR_EACH_DROP(env, k)
+        if self.fn.kind == "rvctor" and name == "alloc_zeroed" and len(args) == 1:
+            return self.E(args[0], env, K(lambda t, ty, env_: k(f"(RsV.arena_alloc_buf c {paren(t)}.size)", res(BUF), env_)))
+        if self.fn.kind == "rvctor" and name == "cast" and not args:
+            return self.E(recv, env, k)
         if self.recv_is_vec(recv, env) and ("vec", name) in FN_BY_KIND:
             return self.args(args, env, lambda pa, env_: self.call_fn(FN_BY_KIND[("vec", name)], None, pa, env_, k))
         if recv[0] == "field" and recv[2] == "buf" and self.recv_is_vec(recv[1], env) and ("rawvec", name) in FN_BY_KIND:
